@@ -264,9 +264,11 @@ class SimRaw(io.RawIOBase):
         d.raw_writes += 1
         dec_ = d.next_decision()
         phase = "close" if d.in_close else "write"
-        if dec_ == "eintr":
+        while dec_ == "eintr":
+            # a signal interrupts the system call; like io.FileIO and os.write (PEP 475) the raw layer retries, so the
+            # interruption is invisible above it (it only changes which decision the retried call meets)
             d.fire("eintr_write")
-            raise _sim_oserror(InterruptedError, errno.EINTR, "simulated EINTR")
+            dec_ = d.next_decision()
         if dec_ == "eio":
             d.fire("eio_write")
             d.fire("surfaced_in_" + phase)
@@ -304,9 +306,9 @@ class SimRaw(io.RawIOBase):
     def readinto(self, b):
         d = self.disk
         dec_ = d.next_decision()
-        if dec_ == "eintr":
+        while dec_ == "eintr":
             d.fire("eintr_read")
-            raise _sim_oserror(InterruptedError, errno.EINTR, "simulated EINTR")
+            dec_ = d.next_decision()
         if dec_ == "eio":
             d.fire("eio_read")
             d.unrecoverable = True
@@ -366,6 +368,20 @@ def make_open(disk, real_open):
         except Exception:
             path = None
         raw_given = None
+        if opener is not None and not isinstance(file, int):
+            # open(path, opener=...): the opener produces the descriptor (tempfile does this); if it hands back one of
+            # the simulated disk's descriptors, continue with that
+            import os as _os_
+            fl = {"r": _os_.O_RDONLY, "w": _os_.O_WRONLY | _os_.O_CREAT | _os_.O_TRUNC,
+                  "a": _os_.O_WRONLY | _os_.O_CREAT | _os_.O_APPEND,
+                  "x": _os_.O_WRONLY | _os_.O_CREAT | _os_.O_EXCL}[mode.replace("b", "").replace("t", "").replace("+", "")[:1] or "r"]
+            if "+" in mode:
+                fl = (fl & ~_os_.O_WRONLY) | _os_.O_RDWR
+            fd_ = opener(file, fl)
+            if fd_ in getattr(disk, "fds", {}):
+                file = fd_
+            else:
+                return real_open(fd_, mode, buffering, encoding, errors, newline, True, None)
         if isinstance(file, int) and not isinstance(file, bool) and file in getattr(disk, "fds", {}):
             raw_given = disk.fds[file]
             path = raw_given.path
@@ -668,7 +684,7 @@ def generate(rng, tier, index):
     n_path = rng.between(1, 3)
     names = sorted(rng.sample(NAMES, rng.between(1, 8)))
     numstr = rng.chance(0.7)
-    cfg = {"kwcalls": rng.chance(0.25), "bufsize": rng.choice(BUFSIZES), "chunk": rng.choice([1, 8, 64, 8192, 8192]),
+    cfg = {"logging": rng.weighted([("quiet", 5), ("default", 2), ("debug", 3)]), "kwcalls": rng.chance(0.25), "bufsize": rng.choice(BUFSIZES), "chunk": rng.choice([1, 8, 64, 8192, 8192]),
            "fault_kinds": kinds, "fault_free": fault_free, "names": names}
     # op mix for this run (swarm)
     kinds_ops = ["addpar", "set", "set_parameters", "set_varylist", "set_variable_values",
@@ -906,6 +922,10 @@ def execute(trace):
                 K(target.loadparameters, ["filename"], path)
                 raised = None
             except OSError as e:
+                if not getattr(e, "_xsim", False) and not disk.unrecoverable:
+                    raise core.HarnessError(
+                        "seam bypass: the code under test reached the real operating system with a path of the simulated "
+                        "disk while loading (%r); that call is not simulated, nothing can be concluded" % (e,))
                 raised = "OSError:%s" % errno.errorcode.get(e.errno, e.errno)
             except Exception as e:  # noqa
                 raised = type(e).__name__
@@ -920,10 +940,28 @@ def execute(trace):
     last_exc = [None]
     import os as _os
     os_real, os_sim = make_os_seams(disk)
-    logging.disable(logging.CRITICAL)
+    real_fileio = io.FileIO
+
+    def sim_fileio(file, mode="r", closefd=True, opener=None):
+        """io.FileIO(path_or_fd): an unbuffered raw file of the simulated disk for its paths / descriptors"""
+        if isinstance(file, int) and file in getattr(disk, "fds", {}):
+            return disk.fds[file]
+        try:
+            pth = _os.fspath(file)
+        except TypeError:
+            pth = None
+        if isinstance(pth, bytes):
+            pth = pth.decode()
+        if isinstance(pth, str) and pth.startswith(SIM_PREFIX):
+            return sim_open(pth, mode if "b" in mode else mode + "b", 0)
+        return real_fileio(file, mode, closefd, opener)
+    logcfg = core.log_config(cfg.get("logging", "quiet"))
+    logcfg.__enter__()
+    count("logging." + logcfg.mode)
     P.open = sim_open
     builtins.open = sim_open
     io.open = sim_open
+    io.FileIO = sim_fileio
     for _k, _f in os_sim.items():
         setattr(_os.path if _k in PATH_FUNCS else _os, _k, _f)
     try:
@@ -1322,6 +1360,7 @@ def execute(trace):
             setattr(_os.path if _k in PATH_FUNCS else _os, _k, _f)
         builtins.open = real_open
         io.open = real_io_open
+        io.FileIO = real_fileio
         if had_attr:
             P.open = old_attr
         else:
@@ -1329,7 +1368,7 @@ def execute(trace):
                 del P.open
             except AttributeError:
                 pass
-        logging.disable(logging.NOTSET)
+        logcfg.__exit__(None, None, None)
     return {"violation": violation, "events": events, "counters": counters,
             "nontrivial": n_save >= 1 and n_load >= 1, "steps": len(events),
             "fault_free": bool(cfg.get("fault_free")),
